@@ -240,6 +240,11 @@ type Sched struct {
 	// the first panic as its failure.
 	KeepGoing  bool
 	FirstPanic string
+	// RoundRobin selects the default order of alternatives: false = running thread, then
+	// ascending ids; true = running thread, then ids cyclically after the thread that ran
+	// last (non-preemptive round robin).
+	RoundRobin bool
+	lastTid    int
 	TraceAll  bool
 	Trace     []string
 	finished  bool
@@ -275,6 +280,7 @@ func Run(choose Chooser, maxSteps int, body func()) (failure string) {
 	S.MaxStep = maxSteps
 	S.Failure = ""
 	S.FirstPanic = ""
+	S.lastTid = 0
 	S.mainSem = make(chan struct{}, 1)
 	S.Epoch++
 	S.Explore = false
@@ -590,9 +596,14 @@ func dispatch(me *Thread) {
 		if len(alts) > 1 {
 			sort.SliceStable(alts, func(i, j int) bool {
 				// current thread first, then ascending ids
-				ci, cj := alts[i].T == me, alts[j].T == me
+				ci := alts[i].T == me || (me != nil && alts[i].Partner == me)
+				cj := alts[j].T == me || (me != nil && alts[j].Partner == me)
 				if ci != cj {
 					return ci
+				}
+				if S.RoundRobin {
+					n := len(S.threads)
+					return (alts[i].T.ID-S.lastTid-1+n)%n < (alts[j].T.ID-S.lastTid-1+n)%n
 				}
 				return alts[i].T.ID < alts[j].T.ID
 			})
@@ -626,6 +637,7 @@ func dispatch(me *Thread) {
 			S.Trace = append(S.Trace, fmt.Sprintf("t%d(%s) %s case%d [%d alts] clk+%dms", a.T.ID, a.T.Name, a.Op.Name, a.Case, len(alts), (S.Clock-Epoch0)/1e6))
 		}
 		perform(a)
+		S.lastTid = a.T.ID
 		a.T.LastRun = S.Clock
 		if a.T == me {
 			S.cur = me
